@@ -10,6 +10,7 @@ Link "band classes" (what the user placed on the link; everything not placed is 
     C        single-band booster of the full C model
     Cred     single-band amplifier with raised f_min (reduced band, same f_max); Cred2: a second such model
     Cshort   single-band amplifier with lowered f_max
+    W        single-band amplifiers whose band spans L and C together, on every amplifier site of the link
     L        single-band L amplifier(s)
     CL       Multiband_amplifier C+L (type_variety, with or without the per-band amplifiers list)
     CLred    Multiband_amplifier with a reduced C or reduced L constituent
@@ -71,6 +72,9 @@ def library(edges, si_band='C', design_reduced=False, spacing=50e9):
         _mb('MB_Cred', ['Cred_std', 'L_std'], design=False), _mb('MB_Cred_low', ['Cred_low', 'L_low'], design=False),
         _mb('MB_Lred', ['C_std', 'Lred_std'], design=False), _mb('MB_Lred_low', ['C_low', 'Lred_low'], design=False),
     ]
+    # one single-band model wide enough for L and C together (its band contains both bands of the multiband models)
+    edfa.append(_vg('W_std', [L[0], C[1]], 15, 26, design=False))
+    edfa.append(_vg('W_low', [L[0], C[1]], 8, 16, 7, 11, design=False))
     if 'S' in edges:
         # a third band above C (gnpy names it 'unknown_band'); three-band models with their constituents in every order
         S = edges['S']
@@ -118,7 +122,7 @@ def entry_bands(lib_edfa):
 
 _OP = {'gain_target': None, 'delta_p': None, 'tilt_target': 0, 'out_voa': None}
 
-SINGLE = {'C': ['C_std', 'C_low', 'C_high'], 'Cred': ['Cred_std', 'Cred_low'], 'Cred2': ['Cred2_std', 'Cred2_low'], 'Cshort': ['Cshort_std', 'Cshort_low'],
+SINGLE = {'W': ['W_std', 'W_low'], 'C': ['C_std', 'C_low', 'C_high'], 'Cred': ['Cred_std', 'Cred_low'], 'Cred2': ['Cred2_std', 'Cred2_low'], 'Cshort': ['Cshort_std', 'Cshort_low'],
           'L': ['L_std', 'L_low'], 'Lred': ['Lred_std', 'Lred_low']}
 MULTI = {'CLS': ['MB3_CLS', 'MB3_LCS', 'MB3_SCL', 'MB3_SLC_low', 'MB3_CSL_low'], 'CL': ['MB_std', 'MB_low'], 'CLred': ['MB_Cred', 'MB_Cred_low', 'MB_Lred', 'MB_Lred_low']}
 MB3_PARTS = {'MB3_CLS': ['C_std', 'L_std', 'S_std'], 'MB3_LCS': ['L_std', 'C_std', 'S_std'], 'MB3_SCL': ['S_std', 'C_std', 'L_std'],
@@ -149,8 +153,8 @@ def chain(draw, lid, direction, cls, spans=(1, 3)):
     if cls in ('L', 'Lred', 'Lnodb'):
         # the degree needs a booster: its uid keys the per-degree design band (see band_topology)
         where = draw(st.sampled_from(['booster', 'all']))
-    if cls == 'CLS':
-        where = 'all'      # three-band line fully placed by the user; design only sets gains
+    if cls in ('CLS', 'W'):
+        where = 'all'      # line fully placed by the user (three-band / wide-band models are not for auto-design)
     if cls == 'Lnodb':
         cls = 'L'
     if cls == 'CLauto':
